@@ -16,6 +16,7 @@ EXPLANATION_ADDED = "R1 also requires the requester's queue/oneshot failures to 
 EXPLANATION_ADDED2 = " R2 also covers the Connect/in-use cell (shared id space) and the dispatcher's ignore_bind constants; R3 also requires a fresh request's state flag to start false."
 EXPLANATION = EXPLANATION + " Added while testing against seeded changes: " + EXPLANATION_ADDED + EXPLANATION_ADDED2
 EXPLANATION = EXPLANATION + ' Round 10: (R5) only the stream handle and the multiplexor handle report on the dropped-flows queue (no stale report closes a re-used id); R3 also requires Drop to answer an unreplied request with false; the Options setter stores its argument (R4).'
+EXPLANATION = EXPLANATION + ' Rounds 14-15: (S9) Frame::new_bind / new_finish / new_reset are exact.'
 ASSUMPTIONS = ["tokio oneshot delivers at most one value"]
 NOT_DECIDED = "independence of concurrent requests under all interleavings"
 BR = "penguin_mux::BindRequest"
